@@ -15,12 +15,17 @@ built-in, the built-in shadows a counter; the time value itself is never compare
 forloop / tablerowloop: the loop object of for / tablerow shadows every outer binding inside the block
 and vanishes after it).
 
-(B) paths.  Every path root + 1..3 (thorough: 4) segments over 22 segment forms (dot name, quoted names
-in both quote styles, a quoted name with a space, [0] [1] [-1] [9] [-9], bracketed index variables holding
-a string / an int / a negative int / nothing / nested ``[ix.one]``, ``.size``, ``.first``, ``.last``)
-from 8 roots (array, hash, string, empty array, empty string, int, nil, missing), under the four
-combinations of ``string_sequences`` x ``string_first_and_last``, compared with the reference path walker
-of ``mc/ref/c14_paths.py``.  Defined results are read back through the documented ``json`` filter.
+(B) paths.  Every path root + 1..3 (thorough: 4) segments over 32 segment forms (dot name, quoted names
+in both quote styles, a quoted name with a space, ``["size"]``, integer indexes 0 1 9 and -1 -2 -3 -4 -5 -6 -8 -9
+(every array length in the data has indexes just inside and just outside its range: -len-1, -len-2, -2*len),
+bracketed index variables holding a string / "size" / an int / negative ints inside and outside the range /
+nothing / nested ``[ix.one]``, ``.size``, ``.first``, ``.last``) from 10 roots (array, hash, hash with keys
+named size/first/last, string, empty array, empty string, int, nil, missing, a variable assigned an undefined
+value), at most one segment after the first missing position, under the four combinations of
+``string_sequences`` x ``string_first_and_last``, compared with the reference path walker of
+``mc/ref/c14_paths.py`` for ``render`` and ``render_async``.  Defined results are read back through the
+documented ``json`` filter.  Cells the docs leave open (.first/.last on a hash without such a key, negative
+string index) are executed too and must give the same result under both APIs.
 """
 
 from __future__ import annotations
@@ -291,13 +296,14 @@ def run_scope_job(res: Result, alpha: str, n: int, lo: int, hi: int, nameset: st
 # paths
 # ---------------------------------------------------------------------------
 PATH_BATCH = 48
-_PATHS: dict[int, list[tuple[int, ...]]] = {}
+_PATHS: dict[tuple[str, bool, bool, int], list[tuple[int, ...]]] = {}
 
 
-def paths(max_segs: int) -> list[tuple[int, ...]]:
-    if max_segs not in _PATHS:
-        _PATHS[max_segs] = P.all_paths(max_segs)
-    return _PATHS[max_segs]
+def paths(root: str, ss: bool, sfl: bool, max_segs: int) -> list[tuple[int, ...]]:
+    key = (root, ss, sfl, max_segs)
+    if key not in _PATHS:
+        _PATHS[key] = P.gen_paths(root, ss, sfl, max_segs)
+    return _PATHS[key]
 
 
 def path_env(ss: bool, sfl: bool, undef: str = "marker") -> Any:
@@ -316,9 +322,16 @@ def path_env(ss: bool, sfl: bool, undef: str = "marker") -> Any:
     return env
 
 
+def is_excluded(want: dict[str, Any]) -> bool:
+    r = want["result"]
+    return isinstance(r, tuple) and bool(r) and r[0] == "excluded"
+
+
 def path_probe(root: str, segs: tuple[int, ...], want: dict[str, Any]) -> str:
     src = P.path_source(root, segs)
-    return f"{{{{ {src} }}}}" if want["result"] is P.UNDEF else f"{{{{ {src} | json }}}}"
+    if want["result"] is P.UNDEF or is_excluded(want):
+        return f"{{{{ {src} }}}}"
+    return f"{{{{ {src} | json }}}}"
 
 
 def path_ok(want: dict[str, Any], text: str, ut: str) -> bool:
@@ -335,12 +348,22 @@ def eval_path_single(root: str, segs: tuple[int, ...], ss: bool, sfl: bool, unde
     want = P.walk(root, segs, ss, sfl)
     env = path_env(ss, sfl, undef)
     ut = undef_text(undef)
-    src = path_probe(root, segs, want)
+    src = P.PREFIX + path_probe(root, segs, want)
     t = util.parse(env, src)
+    outs = {api: t if not t.ok else (util.render(t.value, P.DATA) if api == "sync" else util.render_async(t.value, P.DATA))
+            for api in ("sync", "async")}
+    base = {"family": "path", "segment": want["seg"], "on": want["on"], "string_sequences": ss, "string_first_and_last": sfl}
+    where = f"{src} (string_sequences={ss}, string_first_and_last={sfl})"
+    if is_excluded(want):
+        # the reference is silent here; render and render_async must still agree with each other
+        if outs["sync"].kind() == outs["async"].kind():
+            return []
+        sig = {**base, "expected": "sync-async-equal", "observed": "differ", "api": "async"}
+        return [(sig, f"{where} -> render gives {outs['sync'][:3]!r} but render_async gives {outs['async'][:3]!r} "
+                      f"({want['result'][1]}: value not specified, but both APIs must agree)")]
     per_api: dict[str, list[tuple[str, str, str, str]]] = {}
     wanted = "undefined" if want["result"] is P.UNDEF else "defined"
-    for api in ("sync", "async"):
-        o = t if not t.ok else (util.render(t.value, P.DATA) if api == "sync" else util.render_async(t.value, P.DATA))
+    for api, o in outs.items():
         if not o.ok:
             per_api[api] = [("no-error", o.error_class or "?", "-", f"{o[1]}: {o[2]}")]
         elif not path_ok(want, o.value, ut):
@@ -349,39 +372,48 @@ def eval_path_single(root: str, segs: tuple[int, ...], ss: bool, sfl: bool, unde
             per_api[api] = [(wanted, obs, "-", f"rendered {o.value!r}, expected {exp_txt}")]
     out = []
     for clause, observed, _, api, text in merge_apis(per_api):
-        sig = {"family": "path", "expected": clause, "observed": observed, "segment": want["seg"], "on": want["on"],
-               "string_sequences": ss, "string_first_and_last": sfl, "api": api}
-        out.append((sig, f"{src} (string_sequences={ss}, string_first_and_last={sfl}) -> {text}; deciding step: "
-                         f"{want['seg']} on {want['on']} [{api}]"))
+        sig = {**base, "expected": clause, "observed": observed, "api": api}
+        out.append((sig, f"{where} -> {text}; deciding step: {want['seg']} on {want['on']} [{api}]"))
     return out
 
 
 def run_path_job(res: Result, root: str, ss: bool, sfl: bool, undef: str, max_segs: int, lo: int, hi: int) -> None:
     env = path_env(ss, sfl, undef)
     ut = undef_text(undef)
-    ps = paths(max_segs)
+    ps = paths(root, ss, sfl, max_segs)
     batch: list[tuple[tuple[int, ...], dict[str, Any]]] = []
 
     def flush() -> None:
         if not batch:
             return
-        src = "\n".join(path_probe(root, segs, want) for segs, want in batch)
+        src = P.PREFIX + "\n".join(path_probe(root, segs, want) for segs, want in batch)
         t = util.parse(env, src)
         res.count("templates")
         res.count("renders", 2)
         bad: set[int] = set()
+        lines: dict[str, Optional[list[str]]] = {}
         for api in ("sync", "async"):
             o = t if not t.ok else (util.render(t.value, P.DATA) if api == "sync" else util.render_async(t.value, P.DATA))
-            lines = o.value.split("\n") if o.ok else None
-            if lines is None or len(lines) != len(batch):
-                bad.update(range(len(batch)))
-                break
-            for i, ((_, want), line) in enumerate(zip(batch, lines)):
-                if not path_ok(want, line, ut):
+            ls = o.value.split("\n") if o.ok else None
+            lines[api] = ls if ls is not None and len(ls) == len(batch) else None
+        if lines["sync"] is None or lines["async"] is None:
+            bad.update(range(len(batch)))
+        else:
+            for i, (_, want) in enumerate(batch):
+                if is_excluded(want):
+                    if lines["sync"][i] != lines["async"][i]:
+                        bad.add(i)
+                elif not (path_ok(want, lines["sync"][i], ut) and path_ok(want, lines["async"][i], ut)):
                     bad.add(i)
         for i, (segs, want) in enumerate(batch):
             viols = eval_path_single(root, segs, ss, sfl, undef) if i in bad else []
-            kind = "undefined" if want["result"] is P.UNDEF else P.type_name(want["result"])
+            if is_excluded(want):
+                res.count("unspecified_excluded")
+                res.count("excluded:" + str(want["result"][1]).replace(" ", "_"))
+                res.count("excluded_cells_checked_sync_equals_async")
+                kind = "unspecified"
+            else:
+                kind = "undefined" if want["result"] is P.UNDEF else P.type_name(want["result"])
             label = f"path:{want['seg']}-on-{want['on']}->{kind}" + (":viol" if viols else ":ok")
             nontrivial = ["path", root, segs, ss, sfl, undef] if want["depth"] >= 2 else None
             sample = None
@@ -396,13 +428,7 @@ def run_path_job(res: Result, root: str, ss: bool, sfl: bool, undef: str, max_se
 
     for idx in range(lo, hi):
         segs = ps[idx]
-        want = P.walk(root, segs, ss, sfl)
-        r = want["result"]
-        if isinstance(r, tuple) and r and r[0] == "excluded":
-            res.count("unspecified_excluded")
-            res.count("excluded:" + str(r[1]).replace(" ", "_"))
-            continue
-        batch.append((segs, want))
+        batch.append((segs, P.walk(root, segs, ss, sfl)))
         if len(batch) >= PATH_BATCH:
             flush()
     flush()
@@ -451,11 +477,11 @@ def plan(tier: str) -> list[tuple[int, tuple[Any, ...]]]:
             scope("onef", 3, ns, "four", "marker", "string", 400)
         scope("two", 3, "loop", "four", "marker", "string", 400)
     max_segs = 3 if quick else 4
-    total = len(paths(max_segs))
     chunk = 3000 if quick else 20000
     for root in P.ROOTS:
         for ss in (False, True):
             for sfl in (False, True):
+                total = len(paths(root, ss, sfl, max_segs))
                 for undef in ("marker", "default"):
                     if undef == "default" and (ss != sfl):
                         continue  # the default Undefined runs under the two diagonal flag settings
@@ -490,7 +516,10 @@ class C14(Check):
         "populated the op part again -- the innermost binding wins although it is nil (renders empty, not the "
         "marker of undefined, not the outer value). thorough = 3 ops over {v,w} x 16 "
         "subsets, 4 ops over v (14 kinds) x 16 subsets, 4 ops over {v,w} on the core alphabet x 2 subsets. "
-        "paths: root + 1..3 segments (thorough 4) over 22 segment forms x 8 roots x the four "
+        "paths: root + 1..3 segments (thorough 4) over 32 segment forms (incl. negative indexes just inside and "
+        "just outside every array length, literally and through index variables, and size by name) x 10 roots "
+        "(incl. a hash with keys named size/first/last and a variable holding an undefined value), at most one "
+        "segment after the first missing position, x the four "
         "string_sequences/string_first_and_last settings. Non-trivial = a scope case in which at least one "
         "probed name has two or more live bindings at the probe (the winner shadows another), identity = "
         "(family, forest, layer subset, undefined, load mode); a path case whose first two segments resolve "
@@ -505,8 +534,8 @@ class C14(Check):
         "undocumented), render tag, macro defaults/keyword arguments, include..with of an array value, break/"
         "continue anywhere but in a for body or with/if blocks of that body",
         "excluded and counted: a macro parameter re-assigned inside the macro body, visibility of the caller's "
-        "counters inside a macro, `for forloop in` / `tablerow tablerowloop in`, .first/.last on a hash, "
-        "negative index into a string; the value of the built-in now/today is never compared",
+        "counters inside a macro, `for forloop in` / `tablerow tablerowloop in`, .first/.last on a hash that has no such key, "
+        "negative index into a string (these two are still executed: render and render_async must agree); the value of the built-in now/today is never compared",
         "nil renders as the empty string; whether a break/continue raised inside an included partial or a tablerow "
         "ends the iteration is not documented: such renders are compared only when their probe sequence is the "
         "model's (always the case on the current tree), otherwise excluded and counted",
@@ -528,7 +557,7 @@ class C14(Check):
                "forests of 3 ops over {v,w} x 2 subsets x (each op, all ops, each layer)"),
             "builtin_and_loop_names": "all forests of <=2 ops x 16 subsets over (now,w), (today,w), (forloop,tablerowloop)"
             + ("" if q else "; 3 ops x 4 subsets"),
-            "paths": f"root + 1..{3 if q else 4} segments, 22 segment forms, 8 roots, 4 flag settings (marker Undefined) "
+            "paths": f"root + 1..{3 if q else 4} segments, 32 segment forms, 10 roots, <=1 segment after the first missing position, 4 flag settings (marker Undefined) "
             "+ 2 flag settings (default Undefined)",
         }
 
